@@ -24,7 +24,7 @@ ASSUMPTIONS = [
     "the same inner DAG object is called once per outer description; inner DAGs return node results (documented limits)",
 ]
 ATHERIS = True  # thorough tier: 4 of the 16 shards are coverage-guided (vlib/fuzzshard.py)
-BUDGET = {"quick": {"shards": 4, "seconds": 40}, "thorough": {"shards": 16, "seconds": 420}}
+BUDGET = {"quick": {"shards": 8, "seconds": 40}, "thorough": {"shards": 16, "seconds": 420}}
 
 
 def _walk(P: Dict[str, Any], path: Tuple[str, ...] = ()) -> List[Tuple[Tuple[str, ...], Dict[str, Any], Dict[str, Any]]]:
